@@ -533,6 +533,12 @@ def c12(c):
         units.append(dict(name=nm, srcs=[D + "c12_callback_calls.cpp"], build="asan", defs=EXC + ["CFG=vsbx_" + cfg] + tls, libs=["-ldl"], needs=["libguest1.so", "libguest2.so"]))
         for b, bn in enumerate(["model", "noop", "dylib"]):
             runs.append(dict(unit=nm, label="%s[%s]" % (nm, bn), args=[b], env=guest_env(c)))
+    # bool-valued callback parameters with bytes a well-behaved caller never passes (the guest is not bound by the calling
+    # convention); whether RLBox still sees the raw byte depends on the code generator, so several compilers / levels
+    for b in ("plain0", "asan", "clang-plain0", "clang-plain"):
+        nm = "c12_hostilebool_" + b.replace("-", "_")
+        units.append(dict(name=nm, srcs=[D + "c12_hostilebool.cpp"], build=b, defs=EXC))
+        runs.append(dict(unit=nm, label=nm))
     return dict(units=units, runs=runs, evidence=dict(
         level="exploration",
         rule="(a) register/unregister histories over a pool of 79 same-signature callbacks (slots reused, table between empty and full) on one sandbox while "
